@@ -359,11 +359,17 @@ def shards(tier, seed):
     n, per = (6, 500) if tier == "quick" else (16, 30000)
     out = [{"kind": "random", "rseed": seed * 1000 + i, "count": per} for i in range(n)]
     out.append({"kind": "short_lists"})
+    out.append({"kind": "repo_tests", "modules": ["tests/test_parsers.py"]})
     return out
 
 
 def run_shard(spec):
     tr = install()
+    if spec["kind"] == "repo_tests":
+        from vlib import repo_tests
+        from vlib.props import c17
+        c17.install()
+        return repo_tests.run(spec["modules"])
     (run_random if spec["kind"] == "random" else run_short_lists)(tr, spec)
 
 
